@@ -10,6 +10,7 @@ TARGET = os.path.join(CACHE, "target")
 DRIVER_DEV = os.path.join(TARGET, "debug", "masscanned")
 DRIVER_REL = os.path.join(TARGET, "release", "masscanned")
 MODEL_RUN = os.path.join(CACHE, "ocaml", "model_run")
+CLOCKSHIM = os.path.join(CACHE, "clockshim.so")
 EVIDENCE = os.path.join(VERIF, "evidence")
 CORPUS = os.path.join(VERIF, "corpus")
 REPLAYS = os.path.join(CACHE, "replays")
